@@ -309,6 +309,7 @@ func runAlg(r *prng, thorough bool) {
 				}
 			}
 		}
+		dkgCases(a, thorough)
 		if thorough {
 			for i := 0; i < 40; i++ {
 				n := 11 + pr.intn(30)
@@ -415,21 +416,21 @@ func dealCase(a *api, p *prng, n, t, s int, thorough bool) {
 			}
 		}
 	} else {
-		if binom(n, t) <= 60 {
+		if binom(n, t) <= 25 {
 			for _, sub := range subsetsOf(n) {
 				if len(sub) == t {
 					subsets = append(subsets, sub)
 				}
 			}
 		} else {
-			for k := 0; k < 60; k++ {
+			for k := 0; k < 25; k++ {
 				subsets = append(subsets, randomSubset(p, n, t))
 			}
 		}
-		for k := 0; k < 20 && t < n; k++ {
+		for k := 0; k < 8 && t < n; k++ {
 			subsets = append(subsets, randomSubset(p, n, t+1+p.intn(n-t)))
 		}
-		for k := 0; k < 8 && t > 2; k++ {
+		for k := 0; k < 4 && t > 2; k++ {
 			subsets = append(subsets, randomSubset(p, n, 2+p.intn(t-2)))
 		}
 	}
